@@ -18,7 +18,7 @@ Extraction "../ocaml/model.ml"
   FpLimbs.lpow_vartime FpLimbs.lfrom_repr FpLimbs.lto_repr FpLimbs.lto_canon FpLimbs.lfrom_u64 FpLimbs.lrandom_round FpLimbs.leqb FpLimbs.lis_odd
   FpLimbs.lone LimbGen.R2 LimbGen.TWO_INV LimbGen.GENERATOR LimbGen.ROOT_OF_UNITY LimbGen.ROOT_OF_UNITY_INV LimbGen.DELTA LimbGen.MODULUS_LIMBS
   Shamir.share_to_bytes Shamir.share_from_bytes Shamir.recover
-  Adss.sharing_of Adss.load_bytes Adss.store_bytes Adss.ashare_to_bytes Adss.ashare_from_bytes
+  Adss.sharing_of Adss.load_bytes Adss.load_u32 Adss.store_bytes Adss.ashare_to_bytes Adss.ashare_from_bytes
   Star.wasm_material Star.message_to_bytes Star.message_from_bytes Star.parse_payload
   Scenario.sharks_deal Scenario.decode_shares Scenario.adss_shares Scenario.adss_recover Scenario.adss_coeffs
   Ggm.ginit Ggm.input_bits Scenario.ggm_run Scenario.ggm_step
